@@ -209,6 +209,8 @@ pub fn run() {
     // (d) labels
     let labels = corpus::label_programs();
     run_family("d:label-rules", &labels, &mut fam, &mut bad, &mut classes);
+    let cc = corpus::char_class_programs();
+    run_family("f:character-classes", &cc, &mut fam, &mut bad, &mut classes);
     // (e) short strings
     let shorts = corpus::short_strings(if quick { 3 } else { 4 });
     run_family("e:short-strings", &shorts, &mut fam, &mut bad, &mut classes);
